@@ -560,6 +560,7 @@ func (e *c06Env) afterOp(forgot bool) {
 	e.deadSeen = dead
 	e.resumePending(forgot)
 	e.woke = false
+	e.collect(e.settled, c06Wait) // a RoundTrip that just went ahead may have more to write
 	e.sync()
 	if (e.goAwaySent || e.noReuse) && forgot && e.liveCount() == 0 && !e.closed {
 		// closeOnIdle: the client closes the connection with its last stream
